@@ -343,7 +343,8 @@ def run_property(prop_id, tier, seed):
         if n_random:
             shards = min(NPROC, max(1, n_random // 10))
             per = -(-n_random // shards)
-            shrink = budget.get("shrink", True)
+            # VERIF_NO_SHRINK is set by the sensitivity drivers only (they need the verdict, not a minimal case)
+            shrink = budget.get("shrink", True) and not os.environ.get("VERIF_NO_SHRINK")
             tasks = [(prop_id, tier, seed, i, per, deadline, shrink) for i in range(shards)]
             for out in pool.imap_unordered(shard_worker, tasks):
                 if "error" in out:
